@@ -25,6 +25,13 @@ def run(ck):
         raise vlib.InfraError("driver failed rc=%s %s" % (d["rc"], d["err"][-1500:]))
     ck.trace("strata", "Trace_Faces", "Trace.cfg", t2, nchunks=16,
              what="pentagon disks, cells along the 30 icosahedron edges and their neighbours, random cells, r=0..15")
+    t3 = os.path.join(ck.tdir, "threads.ndjson")
+    d = vlib.run_driver(drv, ["threads", ck.tier, ck.seed, t3])
+    if d["rc"] != 0:
+        raise vlib.InfraError("driver failed rc=%s %s" % (d["rc"], d["err"][-1500:]))
+    ck.trace("concurrent", "Trace_Faces", "Trace.cfg", t3, nchunks=16,
+             what="8 threads asking at the same time for the faces of pentagons and their neighbours, cells along the icosahedron edges "
+                  "and random cells, resolutions interleaved: the faces of a cell do not depend on what other callers are doing")
     ck.ev.assumptions += ["TLC 1.8 / JVM", "H3FaceIJK.tla transcription (checked against the digit-table graph and by round trip) "
                           "+ frozen tables", "geometric cross-observation: nearest of the 20 frozen face centres for interior sample "
                           "points (corners / edge points pulled 0.5..1e-3 towards the centre), ambiguity band 1e-9 (numeric "
